@@ -66,9 +66,8 @@ func (c *Channel) read() {
 		if err != nil {
 			select {
 			case <-c.done:
-				// this prevents us from ever writing to, what would in this case be, a closed
-				// errs channel. also if we are "done" we probably only got an error about transport
-				// dying so we can safely ignore that
+				// if we are "done" we probably only got an error about transport dying so we can
+				// safely ignore that
 				return
 			default:
 			}
@@ -88,7 +87,12 @@ func (c *Channel) read() {
 
 			util.Yield("chan.read.send")
 
-			c.Errs <- err
+			select {
+			case c.Errs <- err:
+			case <-c.done:
+				// nobody picked the error up before the channel was closed, we are done
+				return
+			}
 
 			time.Sleep(c.ReadDelay)
 
